@@ -125,7 +125,15 @@ def run_job(env, spec, ref_in_body=False):
             got = [leaf_value(o) for o in flat(t.result)]
             want = [x for x in flat(t.ref[1])]
             if len(got) != len(want):
-                job.res["errors"].append("%s: result shape %d vs reference %d" % (job.name, len(got), len(want)))
+                # a different number of result values is a different result: reported with an input of this path
+                st, m = H.solve(facts, [], job.timeout, label="C05 %s shape" % job.name)
+                job.obligation("sat" if st == "sat" else st)
+                if st == "sat":
+                    inputs = H.model_inputs(m, job.vals)
+                    job.finding("c05_value", "the operation returns %d values where Python gives %d on %s" % (len(got), len(want), inputs),
+                                dict(inputs=inputs, shape=True))
+                else:
+                    job.res["errors"].append("%s: result shape %d vs reference %d" % (job.name, len(got), len(want)))
                 continue
             nz = O.normaliser(env, t)
             for i, (g, w) in enumerate(zip(got, want)):
